@@ -407,6 +407,10 @@ func (w *joeWorld) generate() {
 		s.sub = &simSub{ID: i}
 		s.topics = genTopics(ch, "sub")
 		base, cancel := context.WithCancel(context.Background())
+		if ch.Chance(1, 5, "subscriber context ends with DeadlineExceeded") {
+			dc := &simDeadlineCtx{Context: context.Background(), done: make(chan struct{})}
+			base, cancel = dc, dc.expire
+		}
 		if i > 0 && ch.Chance(1, 6, "shares the previous subscriber's context") {
 			// one request context behind several subscriptions: a single cancellation
 			// produces several unsubscriptions at once
